@@ -820,7 +820,8 @@ def systematic():
     # path forms
     key_forms = [["IdentifierWithoutHyphen", "c"], ["StringLiteral", "'SHA-256'"], ["StringLiteral", "'MD5'"],
                  ["StringLiteral", "'a b'"], ["StringLiteral", "'it\\'s'"], ["StringLiteral", "'it\\'s-x'"], ["StringLiteral", "''"],
-                 ["IdentifierWithoutHyphen", "src_ref"]]
+                 ["IdentifierWithoutHyphen", "src_ref"], ["StringLiteral", "'true'"], ["StringLiteral", "'AND'"],
+                 ["StringLiteral", "'and'"], ["StringLiteral", "'False'"]]
     idx_forms = [["IntPosLiteral", "0"], ["IntPosLiteral", "+1"], ["IntNegLiteral", "-1"], ["ASTERISK", "*"]]
     firsts = [["IdentifierWithoutHyphen", "b"], ["StringLiteral", "'b-c'"], ["StringLiteral", "'b'"], ["StringLiteral", "'b c'"]]
     types = [["IdentifierWithoutHyphen", "file"], ["IdentifierWithHyphen", "x-y-z"], ["IdentifierWithHyphen", "a-"]]
@@ -906,9 +907,33 @@ def digits(s):
     return "[" + ";".join(str(ord(c)) for c in s) + "]"
 
 
+def float_digits(v):
+    """a Python float as sign, integer digits, fraction digits (positional)"""
+    from decimal import Decimal
+    t = format(Decimal(repr(v)), "f")
+    neg = t.startswith("-")
+    ip, _, fp = t.lstrip("-").partition(".")
+    return neg, ip.lstrip("0"), fp.rstrip("0")
+
+
+def c_pyval(v):
+    if isinstance(v, bool):
+        return "(PyBool %s)" % c_bool(v)
+    if isinstance(v, int):
+        return "(PyInt (%d)%%Z)" % v
+    if isinstance(v, float):
+        neg, ip, fp = float_digits(v)
+        return "(PyFloat (FVal %s %s %s))" % (c_bool(neg), digits(ip), digits(fp))
+    if isinstance(v, str):
+        return "(PyStr %s)" % esc_u(v)
+    return "(PyList %s)" % c_list([c_pyval(x) for x in v])
+
+
 def a_const(s):
     """object-model spec -> Gallina aconst"""
     k = s["k"]
+    if k == "raw":        # a plain Python value: the classes call make_constant
+        return "(make_constant %s)" % c_pyval(s["v"])
     if k == "str":
         return "(CString %s true)" % esc_u(s["v"])
     if k == "int":
@@ -993,8 +1018,18 @@ class ProgGen:
         self.rng = rng
         self.depth = depth
 
+    RAW_POOL = [0, 1, 3, 7, 10, -1, 0.0, 1.0, 3.0, 7.0, 10.0, -1.0, 2.5, True, False, "3", "3.0", "true", "x", "",
+                2 ** 53, float(2 ** 53), "2020-02-29T23:59:59Z", "2020-02-29T23:59:59.5Z", "it's"]
+
     def const(self, kinds=None):
         rng = self.rng
+        if rng.random() < 0.15:
+            # a plain Python value (small pool: equal-looking values of different types meet in one process)
+            pool = [v for v in self.RAW_POOL if kinds is None
+                    or ("str" in kinds and isinstance(v, str) and not v.startswith("2020"))
+                    or ("int" in kinds and isinstance(v, (int, float)) and not isinstance(v, bool))]
+            if pool:
+                return {"k": "raw", "v": rng.choice(pool)}
         k = rng.choice(kinds or ["str", "str", "str", "int", "float", "bool", "hex", "bin", "ts"])
         if k == "str":
             if rng.random() < 0.6:
@@ -1178,6 +1213,22 @@ def prog_systematic():
         for e in [g, cp("AND", A, g), cp("AND", g, A), cp("OR", A, g), cp("FOLLOWEDBY", g, A), Q(g, q1), cp("AND", Q(g, q2), A), par(g),
                   Q(par(cp("AND", A, g)), q3)]:
             out.append(e)
+    # plain Python values as constructor arguments (make_constant), equal-looking values of different types in
+    # one object and in both orders
+    pc = {"type": "a", "comps": [{"k": "basic", "n": "c"}]}
+    pd = {"type": "a", "comps": [{"k": "basic", "n": "d"}]}
+    raw = lambda v: {"k": "raw", "v": v}      # noqa: E731
+    eqr = lambda pth, v: {"k": "cmp", "cls": "Equality", "lhs": pth, "rhs": raw(v), "neg": False}   # noqa: E731
+    pairs = [(3, 3.0), (0, 0.0), (7, 7.0), (-1, -1.0), (2 ** 53, float(2 ** 53)), (1, True), (0, False), (1.0, True),
+             ("3", 3), ("3.0", 3.0), ("true", True), ("1", 1), (10, 10.0), (0.0, -0.0)]
+    for x, y in pairs:
+        for u, v in ((x, y), (y, x)):
+            out.append({"k": "obs", "e": AND(eqr(pc, u), eqr(pd, v))})
+            out.append({"k": "obs", "e": eqr(pc, [u, v])})
+            out.append({"k": "obs", "e": {"k": "cmp", "cls": "In", "lhs": pc, "rhs": {"k": "list", "v": [raw(u), raw(v)]}, "neg": False}})
+            out.append(cp("FOLLOWEDBY", {"k": "obs", "e": eqr(pc, u)}, {"k": "obs", "e": eqr(pc, v)}))
+    for v in ("2020-02-29T23:59:59Z", "2020-02-29T23:59:59.5Z", "it's", "", [1, "a", True, 2.5], []):
+        out.append({"k": "obs", "e": eqr(pc, v)})
     # path steps given as text (ObjectPath(type, ["name[12]", ...]) and "type:a.b[1]" as left-hand side)
     for idx in (0, 9, 10, 12, 255, -1, -12, "*"):
         comps = [{"k": "text", "n": "sections[%s]" % idx, "name": "sections", "idx": idx}, {"k": "text", "n": "name", "name": "name", "idx": None}]
@@ -1217,7 +1268,7 @@ def prog_walk(s, f):
 
 def prog_feature_of(s):
     if s["k"] == "cmp" and s["neg"]:
-        if s["cls"] == "Equality" and s["rhs"]["k"] == "list":
+        if s["cls"] == "Equality" and (s["rhs"]["k"] == "list" or (s["rhs"]["k"] == "raw" and isinstance(s["rhs"]["v"], list))):
             return "C10-not-dropped-in"
         return PROG_NOT.get(s["cls"])
     return None
@@ -1276,8 +1327,28 @@ def q(s):
     return "".join(c if (32 <= ord(c) <= 126 and c not in '\\"()[];,') else "\\%06X" % ord(c) for c in s)
 
 
+def pm_raw(v):
+    if isinstance(v, bool):
+        return "B(t)" if v else "B(f)"
+    if isinstance(v, int):
+        return "I(%d)" % v
+    if isinstance(v, float):
+        neg, ip, fp = float_digits(v)
+        return "F(%s,%s,%s)" % ("-" if neg else "+", ip, fp)
+    if isinstance(v, str):
+        import re as _re
+        m = _re.fullmatch(r"(\d{4})-(\d\d)-(\d\d)T(\d\d):(\d\d):(\d\d)(?:\.(\d{1,6}))?Z", v)
+        if m:
+            y, mo, d, h, mi, sec = (int(x) for x in m.groups()[:6])
+            return "T(%d,%d,%d,%d,%d,%d,%s)" % (y, mo, d, h, mi, sec, (m.group(7) or "").rstrip("0"))
+        return "S(%s)" % q(v)
+    return "L[%s]" % ";".join(pm_raw(x) for x in v)
+
+
 def pm_const(s):
     k = s["k"]
+    if k == "raw":
+        return pm_raw(s["v"])
     if k == "str":
         return "S(%s)" % q(s["v"])
     if k == "int":
@@ -1319,7 +1390,7 @@ def pm_tree(s):
     k = s["k"]
     if k == "cmp":
         op = PM_OP[s["cls"]]
-        if s["cls"] == "Equality" and s["rhs"]["k"] == "list":
+        if s["cls"] == "Equality" and (s["rhs"]["k"] == "list" or (s["rhs"]["k"] == "raw" and isinstance(s["rhs"]["v"], list))):
             op = "IN"
         return ("leaf", "Cmp(%s,%s,%s,%s)" % (pm_path(s["lhs"]), op, "1" if s["neg"] else "0", pm_const(s["rhs"])))
     if k in ("bool", "cpd"):
